@@ -129,6 +129,22 @@ Theorem C11_fold_of_loaded_tree_partial : forall t0 ops p n,
 Proof. exact fold_partial. Qed.
 Print Assumptions C11_fold_of_loaded_tree_partial.
 
+(* what every role of every loaded tree reports exactly, after any sequence of updates: the
+   combination of its critical descendants' states and of one STANDBY per aggregator without
+   counted child below it (this pins C11-a down: nothing else deviates) *)
+Theorem C11_loaded_tree_reports : forall t0 ops p n,
+  get_sub p (run_ops ops (fresh t0)) = Some n -> is_agg n = true ->
+  st_of n = spec_state (opinions_loaded n).
+Proof. exact loaded_actual. Qed.
+Print Assumptions C11_loaded_tree_reports.
+
+(* in particular the ERROR clause holds for every loaded tree under sequential updates *)
+Theorem C11_loaded_tree_error_iff : forall t0 ops p n,
+  get_sub p (run_ops ops (fresh t0)) = Some n -> is_agg n = true ->
+  (st_of n = ERROR <-> In ERROR (crit_states n)).
+Proof. exact loaded_error_iff. Qed.
+Print Assumptions C11_loaded_tree_error_iff.
+
 (* ---- the result depends only on what each task was last told: two update sequences that
         leave the same last values give the same tree; in particular updates to different
         tasks commute.  Holds for every loaded tree (weak invariant) ---- *)
@@ -210,6 +226,14 @@ Theorem C11_error_not_invented_sequential_schedules : forall t0 ups,
   (st_of (c_tree c) = ERROR <-> In ERROR (crit_states (c_tree c))).
 Proof. exact not_invented_sequential. Qed.
 Print Assumptions C11_error_not_invented_sequential_schedules.
+
+(* ---- bridge to the monitor: on every tree reached from a consistent one by any sequence of
+        updates, the monitor that is evaluated on the implementation's snapshots reports no
+        violation class (so a monitor failure is a deviation from these theorems' model) ---- *)
+Theorem C11_monitor_accepts_consistent_runs : forall t ops,
+  Inv false t -> pick_code (snap_codes [] (run_ops ops t)) = 0.
+Proof. exact monitor_accepts_model. Qed.
+Print Assumptions C11_monitor_accepts_consistent_runs.
 
 (* non-vacuity: a concrete loaded tree with task, nested aggregator and a non-critical leaf that
    satisfies the strong invariant; the two refutation witnesses are loaded trees too *)
